@@ -5,6 +5,7 @@ def unsafe_decode(string):
   return gfapy.LastPos(string)
 
 def decode(string):
+  validate_encoded(string)
   position = unsafe_decode(string)
   value = gfapy.posvalue(position)
   if value < 0:
